@@ -22,6 +22,9 @@ THEOREMS = ['Scalibr.Walk.C10_inodes', 'Scalibr.Walk.C10_size', 'Scalibr.Walk.C1
             'Scalibr.Walk.C10_cancel_before', 'Scalibr.Walk.walkNode_inv', 'Scalibr.Walk.runRoots_visited', 'Scalibr.Walk.runRoots_sizeInv',
             'Scalibr.Walk.C10_inodes_exact', 'Scalibr.Walk.C10_cancel_trace', 'Scalibr.Walk.C10_cancel_prefix', 'Scalibr.Walk.C10_cancel_outcome', 'Scalibr.Walk.run_trace']
 
+LAYER_THEOREMS = ['Scalibr.Overlay.C10_layer_bytes', 'Scalibr.Overlay.C10_layer_bytes_loader', 'Scalibr.Overlay.C10_layer_bytes_final',
+                  'Scalibr.Overlay.C10_layer_bytes_boundary', 'Scalibr.Overlay.C10_disk_bytes']
+
 
 def run(ctx):
     ctx.trusted, ctx.assumptions, ctx.rule = W.TRUSTED, W.ASSUME, W.RULE
@@ -74,5 +77,24 @@ def run(ctx):
         return None
     W.run_stream(ctx, 'limits', n, oracle)
     W.run_stream(ctx, 'mixed', n // 4, oracle)
+    # ---- the image-layer clause: "an image load never exposes a layer file at or above the per-file byte limit in any
+    # view and never writes more than that many bytes of it to disk" — theorems in Properties/C10Layer.lean (image model of
+    # C04), tied to image.FromV1Image through the C04 image stream with MaxFileBytes in {1,2,7,4096} and sizes L-1, L, L+1
+    from . import c04
+    ctx.lean_build(['Scalibr.Properties.C10Layer', 'drv_c04'])
+    ok = ctx.audit(['Scalibr.Properties.C10', 'Scalibr.Properties.C10Layer'], THEOREMS + LAYER_THEOREMS) and ok
+    if ctx.tier == 'thorough':
+        ok = ctx.leanchecker('Scalibr.Properties.C10Layer') and ok
+
+    def layer_oracle(case, fi, fm):
+        v = c04._judge(case, fi, fm)[0]
+        return v if v and v.startswith('C10_layer_bytes') else None
+
+    def layer_nontrivial(case, fi, fm):
+        return fi.get('err') == '0' and case.split(' ')[1] in ('1', '2', '7', '4096')
+    lib.standard_stream(ctx, gen='c04gen', driver='drv_c04',
+                        gen_args=['-seed', str(ctx.seed), '-n', str({'quick': 2500, 'thorough': 40000}[ctx.tier]), '-tier', 'quick'],
+                        compare_keys=['err', 'nv', 'walk', 'look'], nontrivial=layer_nontrivial, oracle=layer_oracle,
+                        classify=lambda case, fi, fm: 'image limit=%s err=%s' % (case.split(' ')[1], fi.get('err')))
     if not ok:
-        lib.proof_failed(ctx, 'Scalibr.Properties.C10')
+        lib.proof_failed(ctx, 'Scalibr.Properties.C10 / Scalibr.Properties.C10Layer')
